@@ -131,6 +131,13 @@ impl Workload {
             .create_timer(AnyWorkId::InternalTiming("Create workload"), 0)
             .run();
 
+        #[cfg(fontc_verif)]
+        {
+            verif::next_build();
+            verif::set_creator(None);
+            verif::log("begin");
+        }
+
         let mut workload = Self {
             source,
             job_count: 0,
@@ -257,6 +264,22 @@ impl Workload {
             job.read_access
         );
 
+        #[cfg(fontc_verif)]
+        if verif::enabled() {
+            verif::log(&format!(
+                "ins {} {} {} {} {}",
+                verif::fmt_id(&job.id),
+                match &job.work {
+                    AnyWork::Fe(..) | AnyWork::Be(..) => "real",
+                    AnyWork::Nop(..) => "nop",
+                    AnyWork::AlsoComplete(..) => "also",
+                },
+                verif_fmt_access(&job.read_access),
+                verif_fmt_access(&job.write_access),
+                verif::creator()
+            ));
+        }
+
         self.job_count += 1;
         self.count_pending
             .entry(job.id.discriminant())
@@ -277,6 +300,14 @@ impl Workload {
 
     pub(crate) fn insert(&mut self, job: Job) {
         let also_completes = job.work.also_completes();
+        #[cfg(fontc_verif)]
+        if verif::enabled() && !also_completes.is_empty() {
+            verif::log(&format!(
+                "alsomap {} {}",
+                verif::fmt_id(&job.id),
+                verif::fmt_ids(&also_completes)
+            ));
+        }
 
         // We need pending entries for also-completes items so dependencies on them work
         for id in also_completes.iter() {
@@ -336,6 +367,14 @@ impl Workload {
 
         if !glyph.emit_to_binary {
             trace!("Skipping execution of {be_id:?}; it does not emit to binary");
+            #[cfg(fontc_verif)]
+            if verif::enabled() {
+                verif::log(&format!(
+                    "skip {} {}",
+                    verif::fmt_id(&be_id),
+                    if be_job.running { "running" } else { "idle" }
+                ));
+            }
             for counter in self.counters(&be_id) {
                 counter.fetch_sub(1, Ordering::AcqRel);
             }
@@ -362,6 +401,14 @@ impl Workload {
         }
 
         let deps = deps.build().into();
+        #[cfg(fontc_verif)]
+        if verif::enabled() {
+            verif::log(&format!(
+                "rw {} {} soft",
+                verif::fmt_id(&be_id),
+                verif_fmt_access(&deps)
+            ));
+        }
         trace!(
             "Updating {be_id:?} deps from {:?} to {deps:?}",
             be_job.read_access
@@ -377,6 +424,11 @@ impl Workload {
         timing: JobTime,
     ) -> Result<(), Error> {
         log::debug!("{success:?} successful");
+        #[cfg(fontc_verif)]
+        if verif::enabled() {
+            verif::set_creator(Some(verif::fmt_id(&success)));
+            verif::log(&format!("deliver {}", verif::fmt_id(&success)));
+        }
 
         self.timer.add(timing);
 
@@ -408,6 +460,14 @@ impl Workload {
                 .get_mut(&BeWorkIdentifier::Glyf.into())
                 .expect("Glyf has to be pending");
             glyf_loca_job.read_access = glyf_loca_deps.build().into();
+            #[cfg(fontc_verif)]
+            if verif::enabled() {
+                verif::log(&format!(
+                    "rw {} {} must",
+                    verif::fmt_id(&glyf_loca_job.id),
+                    verif_fmt_access(&glyf_loca_job.read_access)
+                ));
+            }
 
             // Resolve the Access::Unknown for gvar, same race as glyf/loca; see issue #1436
             let mut gvar_deps = AccessBuilder::<AnyWorkId>::new()
@@ -422,6 +482,14 @@ impl Workload {
                 .get_mut(&BeWorkIdentifier::Gvar.into())
                 .expect("Gvar has to be pending");
             gvar_job.read_access = gvar_deps.build().into();
+            #[cfg(fontc_verif)]
+            if verif::enabled() {
+                verif::log(&format!(
+                    "rw {} {} must",
+                    verif::fmt_id(&gvar_job.id),
+                    verif_fmt_access(&gvar_job.read_access)
+                ));
+            }
         }
 
         if let AnyWorkId::Fe(FeWorkIdentifier::KerningLocations) = success {
@@ -444,6 +512,15 @@ impl Workload {
                 .variant(FeWorkIdentifier::KernInstance(NormalizedLocation::default()))
                 .build()
                 .into();
+            #[cfg(fontc_verif)]
+            if verif::enabled() {
+                let id = AnyWorkId::Be(BeWorkIdentifier::GatherIrKerning);
+                verif::log(&format!(
+                    "rw {} {} must",
+                    verif::fmt_id(&id),
+                    verif_fmt_access(&self.jobs_pending[&id].read_access)
+                ));
+            }
         }
 
         if let AnyWorkId::Be(BeWorkIdentifier::GatherIrKerning) = success {
@@ -464,10 +541,24 @@ impl Workload {
                 .variant(FeWorkIdentifier::StaticMetadata)
                 .build()
                 .into();
+            #[cfg(fontc_verif)]
+            if verif::enabled() {
+                let id = AnyWorkId::Be(BeWorkIdentifier::GatherBeKerning);
+                verif::log(&format!(
+                    "rw {} {} must",
+                    verif::fmt_id(&id),
+                    verif_fmt_access(&self.jobs_pending[&id].read_access)
+                ));
+            }
         }
 
         if let AnyWorkId::Fe(FeWorkIdentifier::Glyph(glyph_name)) = success {
             self.update_be_glyph_work(fe_root, glyph_name);
+        }
+
+        #[cfg(fontc_verif)]
+        if verif::enabled() {
+            verif::log(&format!("delivered {}", verif::creator()));
         }
 
         Ok(())
@@ -618,6 +709,8 @@ impl Workload {
                             warn!("  blocked: {pending:?}");
                         }
                     }
+                    #[cfg(fontc_verif)]
+                    verif::log(&format!("stuck {}", self.jobs_pending.len()));
                     return Err(Error::UnableToProceed(self.jobs_pending.len()));
                 }
                 successes.clear();
@@ -639,6 +732,8 @@ impl Workload {
                             let job = self.jobs_pending.get_mut(id).unwrap();
                             log::trace!("Start {id:?}");
                             job.running = true;
+                            #[cfg(fontc_verif)]
+                            let verif_launch_access = verif_fmt_access(&job.read_access);
 
                             let mut work =
                                 AnyWork::AlsoComplete(id.clone(), job.read_access.clone());
@@ -652,6 +747,22 @@ impl Workload {
                             );
 
                             let counters = self.counters(id);
+                            #[cfg(fontc_verif)]
+                            if verif::enabled() {
+                                // counters are read under the log lock: workers decrement under it too
+                                let mut guard = verif::lock();
+                                let mut counts: Vec<_> = self
+                                    .count_pending
+                                    .iter()
+                                    .map(|(d, c)| format!("({d} {})", c.load(Ordering::Acquire)))
+                                    .collect();
+                                counts.sort();
+                                guard.log(&format!(
+                                    "launch {} {verif_launch_access} ({})",
+                                    verif::fmt_id(id),
+                                    counts.join(" ")
+                                ));
+                            }
                             let timing = timing.queued();
                             run_queue.push((work, timing, work_context, counters));
                         }
@@ -698,6 +809,13 @@ impl Workload {
                             // references:
                             // <https://doc.rust-lang.org/nomicon/exception-safety.html#exception-safety>
                             // <https://doc.rust-lang.org/std/panic/trait.UnwindSafe.html>
+                            #[cfg(fontc_verif)]
+                            {
+                                verif::pause("pre", id.discriminant(), 3);
+                                if verif::enabled() {
+                                    verif::set_current_job(Some(verif::fmt_id(&id)));
+                                }
+                            }
                             let result = match std::panic::catch_unwind(AssertUnwindSafe(|| {
                                 work.exec(work_context)
                             })) {
@@ -712,10 +830,28 @@ impl Workload {
                             // before our success result has passed through the channel
                             // At peak times, such as completion of tons of glyphs, the channel seems
                             // to have tens of ms of delay.
+                            #[cfg(fontc_verif)]
+                            verif::set_current_job(None);
+                            #[cfg(fontc_verif)]
+                            verif::pause("post", id.discriminant(), 3);
+                            #[cfg(fontc_verif)]
+                            let mut verif_guard = verif::lock();
                             if result.is_ok() {
                                 for counter in counters {
                                     counter.fetch_sub(1, Ordering::AcqRel);
                                 }
+                            }
+                            #[cfg(fontc_verif)]
+                            {
+                                if verif::enabled() {
+                                    verif_guard.log(&format!(
+                                        "finish {} {}",
+                                        verif::fmt_id(&id),
+                                        if result.is_ok() { "ok" } else { "err" }
+                                    ));
+                                }
+                                drop(verif_guard);
+                                verif::pause("send", id.discriminant(), 3);
                             }
                             let timing = timing.complete();
 
@@ -733,6 +869,8 @@ impl Workload {
                         .timer
                         .create_timer(AnyWorkId::InternalTiming("rc"), nth_wave)
                         .run();
+                    #[cfg(fontc_verif)]
+                    verif::pause("recv", "main", 2);
                     self.read_completions(&mut successes, &recv, RecvType::Blocking)?;
                     self.timer.add(timing.complete());
                     let timing = self
@@ -790,6 +928,15 @@ impl Workload {
             }
         }
 
+        #[cfg(fontc_verif)]
+        verif::set_creator(Some("end".to_string()));
+        #[cfg(fontc_verif)]
+        verif::log(&format!(
+            "end {} {}",
+            self.success.len(),
+            self.job_count
+        ));
+
         Ok(self.timer)
     }
 
@@ -824,6 +971,8 @@ impl Workload {
                     }
                 }
                 Err(e) => {
+                    #[cfg(fontc_verif)]
+                    verif::log(&format!("error {}", verif::fmt_id(&completed_id)));
                     self.n_failures += 1;
                     if self.error.is_none() {
                         self.error = Some(e);
@@ -957,5 +1106,17 @@ fn get_panic_message(msg: Box<dyn std::any::Any + Send + 'static>) -> String {
             Some(s) => s.to_owned(),
             None => "Box<dyn Any>".to_owned(),
         },
+    }
+}
+
+#[cfg(fontc_verif)]
+use fontdrasil::orchestration::verif;
+
+/// Verification hook: render an [AnyAccess] for the event log.
+#[cfg(fontc_verif)]
+fn verif_fmt_access(access: &AnyAccess) -> String {
+    match access {
+        AnyAccess::Fe(access) => verif::fmt_access(access),
+        AnyAccess::Be(access) => verif::fmt_access(access),
     }
 }
